@@ -372,7 +372,8 @@ Section Clauses.
     nth 1 resp 0%N = nth 1 dg 0%N /\
     (nth 0 resp 0%N = (c + 1)%N \/ nth 0 resp 0%N = (c + 2)%N) /\
     firstn 16 (skipn 4 resp) = digest16 (H (s_respkey secret dg resp)) /\
-    ((N.of_nat (length resp) < 65536)%N -> s_len resp = length resp).
+    ((N.of_nat (length resp) < 65536)%N -> s_len resp = length resp) /\
+    20 <= length resp.
   Proof.
     rewrite model_is_reference.
     destruct (reference_cases dg) as [[E NA]|(attrs & EP & A & ED & _)]; [rewrite E; discriminate|].
@@ -399,16 +400,87 @@ Section Clauses.
     - intros X. inversion X; subst. apply N.eqb_eq in E43.
       match goal with |- context [respond secret H ?cd ?id ?ra ?r] =>
         destruct (respond_shape cd id ra r) as (R0 & R1 & R4 & R20 & RA & RL); pose proof (LF cd id ra r) as RF end.
-      cbn zeta in *. repeat split; auto.
+      cbn zeta in *. repeat split; auto; [|lia].
       rewrite R0. destruct (h_ok _); [left|right]; reflexivity.
     - destruct (N.eqb (s_code dg) 40) eqn:E40; [|discriminate].
       intros X. inversion X; subst. apply N.eqb_eq in E40.
       match goal with |- context [respond secret H ?cd ?id ?ra ?r] =>
         destruct (respond_shape cd id ra r) as (R0 & R1 & R4 & R20 & RA & RL); pose proof (LF cd id ra r) as RF end.
-      cbn zeta in *. repeat split; auto.
+      cbn zeta in *. repeat split; auto; [|lia].
       rewrite R0. destruct (h_ok _); [left|right]; reflexivity.
   Qed.
+
+  (* strict TLV tiling (the monitor's well-formedness) implies that the code's parser succeeds *)
+  Lemma tlv_parse f1 : forall f2 l, length l < f1 -> length l < f2 -> s_tlv f1 l = true ->
+    exists a, parse_list f2 l = POk a.
+  Proof.
+    induction f1 as [|f1 IH]; intros f2 l H1 H2 T; [lia|].
+    destruct f2 as [|f2]; [lia|].
+    cbn [s_tlv] in T. cbn [parse_list].
+    destruct l as [|t [|al rest]]; [eexists; reflexivity|discriminate|].
+    apply andb_prop in T. destruct T as [T T3]. apply andb_prop in T. destruct T as [T1 T2].
+    apply N.leb_le in T1. apply Nat.leb_le in T2. cbn [length] in *.
+    replace (Nat.ltb (N.to_nat al) 2 || Nat.ltb (S (S (length rest))) (N.to_nat al)) with false
+      by (symmetry; apply orb_false_intro; apply Nat.ltb_ge; lia).
+    destruct (IH f2 (skipn (N.to_nat al - 2) rest)) as (a & Ea); try (rewrite skipn_length; lia); [exact T3|].
+    rewrite Ea. eexists; reflexivity.
+  Qed.
+
+  Lemma wf_parses dg : s_wf dg = true -> exists a, attrs_parse (s_attrs dg) = POk a.
+  Proof. intros W. unfold attrs_parse. eapply tlv_parse; [| |exact W]; lia. Qed.
+
+  (* Model ⊑ monitor: the trace monitor accepts what the Model does with any datagram (guard: the
+     response the handler's answer leads to is shorter than 65536 bytes, so its Length field is exact) *)
+  Lemma monitor_accepts_model stale dg hr tbl fl :
+    (forall c called req resp, proc true stale dg = Handle c called req resp ->
+                               (N.of_nat (length resp) < 65536)%N) ->
+    let ss := {| s_secret := secret; s_coa_set := coa_set; s_dm_set := dm_set |} in
+    accept (fun k => Some (H k)) ss
+           {| o_dg := dg; o_hr := hr; o_authentic := s_complete dg && req_verifies secret H dg;
+              o_tbl := tbl; o_md5 := fl |}
+           (obs_of (proc true stale dg)) = inl ss.
+  Proof.
+    intros G ss. unfold accept. cbn [o_dg o_authentic s_secret s_coa_set s_dm_set ss].
+    pose proof (response_props stale dg) as RP.
+    rewrite model_is_reference in *.
+    destruct (reference_cases dg) as [[E NA]|(attrs & EP & A & _ & (called & req & resp & E))].
+    - rewrite E. cbn [obs_of]. unfold acted_on in NA.
+      destruct (s_complete dg) eqn:EC; cbn [negb andb]; [|reflexivity].
+      rewrite (bytes_eqb_sym (digest16 (H (s_reqkey secret dg))) (s_auth dg)).
+      fold (req_verifies secret H dg).
+      destruct (req_verifies secret H dg) eqn:EV; cbn [Bool.eqb negb andb]; [|reflexivity].
+      destruct (s_isreq dg) eqn:EI; cbn [negb]; [|reflexivity].
+      cbn [forallb negb length Nat.eqb Nat.leb andb].
+      destruct (s_wf dg) eqn:EW.
+      { exfalso. apply NA. repeat split; auto. apply wf_parses; exact EW. }
+      cbn [andb]. destruct (if N.eqb (s_code dg) 43 then coa_set else dm_set); reflexivity.
+    - rewrite E in *. cbn [obs_of]. destruct A as (EC & EV & _ & EI).
+      rewrite EC. cbn [negb andb].
+      rewrite (bytes_eqb_sym (digest16 (H (s_reqkey secret dg))) (s_auth dg)).
+      fold (req_verifies secret H dg). rewrite EV, EI. cbn [Bool.eqb negb andb].
+      destruct (RP _ _ _ _ eq_refl) as (_ & Hc & Hcalled & Hid & Hcode & Hauth & Hlen & H20).
+      specialize (Hlen (G _ _ _ _ eq_refl)).
+      assert (Hinst : called = (if N.eqb (s_code dg) 43 then coa_set else dm_set)) by exact Hcalled.
+      set (inst := if N.eqb (s_code dg) 43 then coa_set else dm_set) in *.
+      assert (Hf : forallb (fun c : N * request => N.eqb (fst c) (s_code dg)) (if called then [(s_code dg, req)] else []) = true).
+      { destruct called; cbn [forallb fst andb]; rewrite ?N.eqb_refl; reflexivity. }
+      rewrite Hf. cbn [negb length Nat.eqb Nat.leb].
+      assert (Hl : length (if called then [(s_code dg, req)] else []) = if inst then 1 else 0)
+        by (rewrite Hinst; destruct inst; reflexivity).
+      rewrite Hl. rewrite Nat.eqb_refl, Nat.leb_refl. cbn [andb negb]. rewrite andb_false_r.
+      replace (Nat.leb (if inst then 1 else 0) 1) with true by (destruct inst; reflexivity).
+      cbn [negb resps_ok]. unfold resp_ok.
+      replace (Nat.leb 20 (length resp)) with true by (symmetry; apply Nat.leb_le; exact H20).
+      rewrite Hid, N.eqb_refl. cbn [negb].
+      replace (N.eqb (nth 0 resp 0%N) (s_code dg + 1) || N.eqb (nth 0 resp 0%N) (s_code dg + 2)) with true
+        by (symmetry; apply orb_true_iff; destruct Hcode as [X|X]; [left|right]; apply N.eqb_eq; exact X).
+      rewrite Hlen, Nat.eqb_refl. cbn [negb].
+      rewrite <- Hauth. rewrite (proj2 (bytes_eqb_eq _ _) eq_refl). reflexivity.
+  Qed.
 End Clauses.
+
+Lemma wellformed_attributes_parse dg : s_wf dg = true -> exists a, attrs_parse (s_attrs dg) = POk a.
+Proof. exact (wf_parses (fun _ _ => coa_default) (fun x => x) dg). Qed.
 
 (* witness for the tree before the fix: 20 zero-ish bytes with Length field 19 *)
 Definition k15a_witness : bytes := [43; 1; 0; 19; 0;0;0;0;0;0;0;0;0;0;0;0;0;0;0;0]%N.
